@@ -46,7 +46,7 @@ ASSUMPTIONS = ["clock domains with synchronous reset or none (async_reset domain
                "port inputs change only between edges (testbench sets inputs, then the clocks, then samples)",
                "at one simultaneous edge no two write ports of different domains write a common bit of one row "
                "(S1: the surviving value depends on the process-set iteration order; hardware: undefined)"]
-SHARD = 250
+SHARD = 720
 
 DEPTHS = [0, 1, 2, 3, 4, 5, 8]
 SHAPES = [["u", 1], ["u", 2], ["u", 4], ["u", 6], ["u", 8], ["s", 1], ["s", 3], ["s", 8], ["u", 0],
@@ -241,7 +241,7 @@ def _exhaustive(thorough):
     for name, rp in kinds:
         for depth in (0, 1, 2, 3):
             for w in (1, 2):
-                for gran in (None, 1):
+                for gran in ((None,) if w == 1 else (None, 1)):
                     c0 = dict(base, shape=["u", w], depth=depth, init=[(i + 1) % (1 << w) for i in range(depth)],
                               wports=[{"dom": 0, "gran": gran}], rports=[rp], g="exh1:" + name)
                     enw = _enw(c0["shape"], gran)
@@ -269,7 +269,7 @@ def gen_cases(tier, seed):
     rng = random.Random(seed)
     thorough = tier == "thorough"
     cases = _exhaustive(thorough) + _ctor_cases()
-    n_rand = 12000 if thorough else 1800
+    n_rand = 12000 if thorough else 1600
     rnd = []
     for i in range(n_rand):
         c = _rand_cfg(rng)
@@ -505,8 +505,6 @@ def _check_rtlil(c):
         return bad + [f"cell counts {len(inits)} {len(wrs)} {len(rds)}"]
     _, par, con = inits[0]
     raw = [(v & ((1 << w) - 1)) for v in c["init"]] + [0] * (depth - len(c["init"]))
-    if _signed(c["shape"]) or c["shape"][0] in ("u",):
-        pass
     exp = "".join(format(v, f"0{w}b") for v in reversed(raw)) if w else ""
     got = con["DATA"].split("'")[1] if "'" in con["DATA"] else ""
     if (par["ABITS"], par["WIDTH"], par["WORDS"], par["PRIORITY"]) != ("0", str(w), str(depth), "0") or got != exp:
@@ -523,10 +521,11 @@ def _check_rtlil(c):
                 bad.append(f"memwr {j} EN {con['EN']}")
     for j, ((_, par, con), p) in enumerate(zip(rds, c["rports"])):
         tm = sum(1 << i for i in set(p["transp"]))
-        exp_tm = f"{nw}'" + format(tm, f"0{nw}b") if nw else "0'"
+        exp_tm = f"{nw}'" + format(tm, f"0{nw}b") if nw else "0'0"
         sync = p["dom"] >= 0
         if (par["ABITS"], par["WIDTH"], par["CLK_ENABLE"], par["TRANSPARENCY_MASK"].rstrip()) != (str(ab), str(w), "1" if sync else "0", exp_tm):
-            bad.append(f"memrd {j} {par} expected mask {exp_tm}")
+            dup = "DUPLICATE-TRANSPARENT-PORT " if len(set(p["transp"])) != len(p["transp"]) else ""
+            bad.append(f"{dup}memrd {j} {par} expected mask {exp_tm}")
         if par["COLLISION_X_MASK"].strip("0'") not in ("", str(nw)) and set(par["COLLISION_X_MASK"].split("'")[1]) - {"0"}:
             bad.append(f"memrd {j} collision mask {par['COLLISION_X_MASK']}")
         if sync and (par["CLK_POLARITY"] != ("0" if c["neg"][p["dom"]] else "1") or
@@ -558,6 +557,43 @@ def _xcoll(rng):
     rows = rows[:depth]
     others = all(rows[i] == (i + 1) % (1 << w) for i in range(depth) if i != row)
     return (rows[row] in (da, db)) and others, (0 if rows[row] == da else 1)
+
+
+F_DUP = "C11-rtlil-transparency-mask-duplicate-port"
+F_RST = "C11-sim-disabled-read-port-reset"
+
+
+def _finding(findings, fid, payload):
+    """mark the payload as a known finding iff the id is listed as open for this property"""
+    for f in findings:
+        if f.get("property") == ID and f.get("id") == fid and f.get("status") == "open":
+            return dict(payload, known=f"{fid}: {f.get('what', '')}")
+    return dict(payload, finding_id=fid)
+
+
+def _reset_probe():
+    from amaranth.hdl import Module, ClockDomain
+    from amaranth.lib.memory import Memory
+    from amaranth.sim import Simulator
+    m = Module()
+    m.domains.a = cd = ClockDomain("a")
+    m.submodules.mem = mem = Memory(shape=8, depth=4, init=[5, 6, 7, 8])
+    rp = mem.read_port(domain="a")
+    out = []
+
+    async def tb(ctx):
+        ctx.set(rp.addr, 1)
+        ctx.set(cd.clk, 1)
+        ctx.set(cd.clk, 0)
+        ctx.set(rp.en, 0)
+        ctx.set(cd.rst, 1)
+        ctx.set(cd.clk, 1)
+        ctx.set(cd.clk, 0)
+        out.append(ctx.get(rp.data))
+    sim = Simulator(m)
+    sim.add_testbench(tb)
+    sim.run()
+    return out[0]
 
 
 def extra(tier, seed, findings):
@@ -603,6 +639,7 @@ def extra(tier, seed, findings):
     st["port_set_shapes"] = len({(len(c["wports"]), len(c["rports"])) for c in cases})
     st["transparency_sets"] = len({(len(c["wports"]), tuple(p["transp"])) for c in cases for p in c["rports"]})
     # RTLIL cell parameters
+    dup_seen, n_bad = False, 0
     rt = [c for c in cases if c["g"] == "rand"]
     rng.shuffle(rt)
     n_rt = 600 if tier == "thorough" else 120
@@ -612,12 +649,24 @@ def extra(tier, seed, findings):
         except Exception as e:
             bad = [f"{type(e).__name__}: {e}"]
         st["rtlil_designs_checked"] += 1
-        if bad:
-            cc = dict(c)
-            viol.append({"property": ID, "kind": "rtlil-cells", "case": cc, "complaints": bad[:5],
+        if bad and all(b.startswith("DUPLICATE-TRANSPARENT-PORT") for b in bad):
+            st["rtlil_duplicate_transparent_port_masks_wrong"] += 1
+            if not dup_seen:
+                dup_seen = True
+                viol.append(_finding(findings, F_DUP, {"property": ID, "kind": "rtlil-cells", "case": dict(c),
+                                                       "complaints": bad[:5], "expected_by_model": [], "observed": []}))
+        elif bad and n_bad < 3:
+            n_bad += 1
+            viol.append({"property": ID, "kind": "rtlil-cells", "case": dict(c), "complaints": bad[:5],
                          "expected_by_model": [], "observed": []})
-            if len(viol) >= 3:
-                break
+    # read data register of a disabled sync read port at an edge with the domain's reset asserted:
+    # the simulator loads the signal's init value, $memrd_v2 (SRST tied to 0) holds
+    held = _reset_probe()
+    st["reset_probe_read_data_after_rst_and_not_en"] = held
+    if held != 6:
+        viol.append(_finding(findings, F_RST, {"property": ID, "kind": "read-port-reset", "case": {},
+                    "complaints": [f"read data {held} after an edge with rst=1, en=0; 6 was held before (RTLIL: SRST=0, holds)"],
+                    "expected_by_model": [], "observed": []}))
     # cross-domain collisions (S1): one of the two values, nothing else disturbed
     winners = collections.Counter()
     for _ in range(200 if tier == "thorough" else 40):
